@@ -120,6 +120,43 @@ def taint_names(fn, seeds, safe_parts=None):
     return t
 
 
+def authenticates_with(p, fn, name, depth=2):
+    """does fn pass local `name` to <user manager>.authenticate, directly or through a helper method of the same class (one or two levels)?"""
+    for c in ast.walk(fn):
+        if isinstance(c, ast.Call) and is_method_call(c, "authenticate") and any(isinstance(a, ast.Name) and a.id == name for a in c.args):
+            return True
+    if depth <= 0:
+        return False
+    for c in ast.walk(fn):
+        if is_self_call(c) and any(isinstance(a, ast.Name) and a.id == name for a in c.args):
+            h = p.methods("Server").get(c.func.attr)
+            if h is None or h is fn:
+                continue
+            hp = [a.arg for a in h.args.args]
+            if hp and hp[0] in ("self", "cls"):
+                hp = hp[1:]
+            for i, a in enumerate(c.args):
+                if isinstance(a, ast.Name) and a.id == name and i < len(hp) and authenticates_with(p, h, hp[i], depth - 1):
+                    return True
+    return False
+
+
+def helper_leaks(p, helper, param, conn_param=None):
+    """sinks inside a helper that depend on its (secret) parameter: [(node, what)]"""
+    out = []
+    th = taint_names(helper, {param})
+    for c in logger_calls(helper, nested=False):
+        used = set().union(*[under_len_only(a, th) for a in sink_args(c)]) if sink_args(c) else set()
+        if used:
+            out.append((c, "log"))
+    for c in walk_no_nested(helper):
+        if isinstance(c, ast.Call) and is_reply(c) and any(under_len_only(a, th) for a in c.args):
+            out.append((c, "reply"))
+        if isinstance(c, ast.Raise) and c.exc is not None and under_len_only(c.exc, th):
+            out.append((c, "exception text"))
+    return out
+
+
 def rule_server(ctx):
     p = ctx.p
     ctx.rule("C20.SRV", "parse_command: the line/argument reaches a logger only on the non-censored branch; censor key == dispatch key; authenticating verbs are censored")
@@ -207,7 +244,7 @@ def rule_server(ctx):
     n_auth = 0
     for verb, name, h in p.handlers():
         conn, rest = p.handler_params(h)
-        if not any(isinstance(c, ast.Call) and is_method_call(c, "authenticate") and any(isinstance(a, ast.Name) and a.id == rest for a in c.args) for c in ast.walk(h)):
+        if not authenticates_with(p, h, rest):
             continue
         n_auth += 1
         ctx.ob("C20.HANDLER", h, f"verb {verb!r} (passes its argument to authenticate) is in the censor set {sorted(censor_default)}", verb in censor_default,
@@ -230,9 +267,20 @@ def rule_server(ctx):
             if isinstance(c, ast.Call) and not is_reply(c) and c not in list(logger_calls(h, nested=False)):
                 gets = any(under_len_only(a, th) for a in list(c.args) + [k.value for k in c.keywords])
                 if gets and not is_method_call(c, "authenticate") and not (isinstance(c.func, ast.Name) and c.func.id in ("len", "str", "bool", "isinstance")):
-                    callee = resolve_callees(p, c, h)
-                    ctx.ob("C20.HANDLER", c, f"{name}: the password argument is passed only to authenticate()", False,
-                           f"{name}: the password argument is passed to `{src(c.func)}`, whose logging the analysis does not follow", construct=f"{name}:secret passed to {src(c.func)}")
+                    helper = p.methods("Server").get(c.func.attr) if is_self_call(c) else None
+                    if helper is not None:
+                        hp = [a.arg for a in helper.args.args]
+                        if hp and hp[0] in ("self", "cls"):
+                            hp = hp[1:]
+                        leaks = []
+                        for i, a in enumerate(c.args):
+                            if i < len(hp) and under_len_only(a, th):
+                                leaks += helper_leaks(p, helper, hp[i])
+                        ctx.ob("C20.HANDLER", c, f"{name}: helper {helper.name}() receives the password argument and sends it to no log/reply/exception text", not leaks,
+                               f"{name}: helper {helper.name}() puts the password argument into a {leaks[0][1] if leaks else ''}", construct=f"{name}:{helper.name} leaks secret")
+                    else:
+                        ctx.ob("C20.HANDLER", c, f"{name}: the password argument is passed only to authenticate()", False,
+                               f"{name}: the password argument is passed to `{src(c.func)}`, whose logging the analysis does not follow", construct=f"{name}:secret passed to {src(c.func)}")
     if n_auth < 1:
         ctx.floor_errors.append("rule=C20.HANDLER: no authenticating handler found (floor 1)")
     # user manager: authenticate/get_user do not log their arguments
